@@ -5,6 +5,8 @@
 #include "common/track.hpp"
 #include <frg/rcu_radixtree.hpp>
 #include <map>
+#include <set>
+#include <initializer_list>
 #include <algorithm>
 #include <numeric>
 
@@ -254,6 +256,42 @@ static void random_histories(const char *mode, uint64_t ncases, unsigned nops, s
 	}
 }
 
+// ------------------------------------------------------------------ what insert(k, args...) constructs must not depend on the tree's shape
+// Probe distinguishes the ways a value can be built from the same arguments (list-initialisation picks the initializer_list
+// constructor, direct-initialisation the (int,int) one) and records whether its arguments arrived as lvalues or rvalues. Which way
+// the tree uses is its business; that the same call builds the value the same way whether it opens a new leaf, splits a prefix or
+// lands in an existing leaf is what "find returns the value inserted under that key" needs.
+struct Probe {
+	int how; int a, b;
+	Probe(std::initializer_list<int> l) : how(1), a(l.size() > 0 ? *l.begin() : -1), b(l.size() > 1 ? *(l.begin() + 1) : -1) {}
+	Probe(int x, int y) : how(2), a(x), b(y) {}
+};
+struct PlainAlloc { void *allocate(size_t n) { return malloc(n); } void deallocate(void *p, size_t) { free(p); } void free(void *p) { ::free(p); } };
+static void construction_consistency() {
+	if(!want_mode("construct")) return;
+	Rng r(derive_seed("construct"));
+	for(uint64_t c = opt.shard; c < scaled(300, 5000); c += opt.nshards) {
+		begin_case("construct", c);
+		guarded(g_prop.c_str(), [&] {
+			frg::rcu_radixtree<Probe, PlainAlloc> tree{PlainAlloc{}};
+			std::map<uint64_t, std::pair<int, int>> model; std::set<int> hows;
+			uint64_t base = r.next();
+			for(int i = 0; i < 40; i++) {
+				uint64_t k = r.chance(1, 2) ? base + r.below(40) : (r.chance(1, 2) ? base ^ ((uint64_t)(1 + r.below(15)) << (4 * r.below(16))) : r.next());
+				if(model.count(k)) continue;
+				int x = (int)r.below(1000), y = (int)r.below(1000);
+				Probe *p;
+				if(r.chance(1, 2)) p = tree.insert(k, x, y); else p = tree.find_or_insert(k, x, y).template get<0>();
+				model[k] = {x, y}; hows.insert(p->how);
+				if(p->a != x || p->b != y) { if(g_model_armed) violation("C09:model:radixtree:constructed-value", strf("insert(%016llx, %d, %d) constructed a value holding (%d, %d)", (unsigned long long)k, x, y, p->a, p->b)); return; }
+			}
+			if(hows.size() > 1 && g_model_armed) violation("C09:model:radixtree:construction-depends-on-tree-shape", "the same insert(k, a, b) call list-initialises the value for some keys and direct-initialises it for others (depending on whether the key opens a new leaf, splits a prefix or lands in an existing leaf)");
+			for(auto &kv : model) { Probe *p = tree.find(kv.first); if(!p || p->a != kv.second.first || p->b != kv.second.second) { if(g_model_armed) violation("C09:model:radixtree:constructed-value", "find() returns a value that differs from the arguments given to insert()"); return; } }
+		});
+		note_distinct(mix(hash_str("construct"), c)); count("construction_consistency_cases");
+	}
+}
+
 int main(int argc, char **argv) {
 	parse_args(argc, argv, "c09_radix");
 	if(opt.replay_arg.find("prop=C16") != std::string::npos) g_prop = "C16";
@@ -268,6 +306,7 @@ int main(int argc, char **argv) {
 	if(t) exhaustive_orders("exh:6", 6, 30);
 	random_histories("rand:small", scaled(300, 10000), 120, 40);
 	random_histories("rand:large", scaled(8, 300), t ? 20000 : 4000, 0);
+	construction_consistency();
 	sample("exh:4: keys {B, B^8<<60 (differs at the most significant nibble), B+1, 0} inserted in every order (insert / find_or_insert alternating), all finds + iteration after each step, then erase/re-insert");
 	sample("rand:large: 4000 (thorough 20000) ops of insert/find_or_insert/find/erase/re-insert over keys from {adversarial pool, random, short, neighbours differing in one nibble}");
 	return finish();
